@@ -6,6 +6,8 @@
 import EinoV.Model.C04
 import EinoV.Proofs.C04
 import EinoV.Proofs.EngineHom
+import EinoV.Model.C04Lazy
+import EinoV.Proofs.C04Lazy
 import EinoV.Gen.FactsC04
 import EinoV.Expected.C04
 
@@ -95,7 +97,123 @@ theorem nested_graph_node {A B : Type} (h : A → B) (P : A → Prop) (tb : Bran
   rw [engine_hom h P tb tn htb htn oA oB hops sub hz Sched.id Sched.id (sched_id_hom h).1 (sched_id_hom h).2 a ha]
   rfl
 
+/-! ### error items: failures reported in the middle of a stream (`Model/C04Lazy.lean`) -/
+
+/-- **error_item_reported.** "A failure is reported in every paradigm (at call time or as an
+    error item on the stream)": everything that drains a stream carrying an error item fails with
+    that item — a packed component (`lazyNode`), a natively streaming producer that would itself
+    break later (`lazyMidFail`), a plain branch condition (`lazyCond`, `collectByInvoke`) and the
+    caller concatenating the output (`lazyConcat`: Collect, or draining Stream / Transform). -/
+theorem error_item_reported {V} (co : ChunkOps V) (s : LStream V) (e : Err) (he : s.err = some e)
+    (t : List V → Except Err (List V)) (k : Nat) (e' : Err) (c : List V → Except Err (List Key)) :
+    lazyNode t s = .error e ∧ lazyMidFail t k e' s = .error e ∧ lazyCond c s = .error e ∧
+    lazyConcat co s = .error e := by
+  simp [lazyNode, lazyMidFail, lazyCond, lazyConcat, LStream.force_err s e he, bind, Except.bind]
+
+/-- **merge_keeps_error_items.** The fan-in of streams (`MergeStreamReaders`) neither drops nor
+    invents error items: the merged stream carries one iff some source does, and the one it
+    carries is a source's. (Chain `Parallel`, a node or END with several data predecessors.) -/
+theorem merge_keeps_error_items {V} (ls : List (LStream V)) :
+    ∃ m, lazyOps.merge ls = some m ∧
+      (∀ s ∈ ls, ∀ e, s.err = some e → ∃ e', m.err = some e') ∧
+      (∀ e', m.err = some e' → ∃ s ∈ ls, s.err = some e') ∧
+      ((∀ s ∈ ls, s.err = none) → m.err = none ∧ m.chunks = (ls.map (·.chunks)).flatten) := by
+  refine ⟨_, rfl, ?_, ?_, ?_⟩
+  · intro s hs e he
+    exact findSome_err_some ls s hs e he
+  · intro e' he'
+    exact findSome_err_mem ls e' he'
+  · intro h
+    exact ⟨findSome_err_none ls h, rfl⟩
+
+/-- **forwarding_keeps_error_items.** Chunk-wise conversion of a stream (`WithOutputKey`,
+    `WithInputKey` on a stream, edge handlers: `StreamReaderWithConvert`) forwards the error item. -/
+theorem forwarding_keeps_error_items {V} (f : List V → List V) (s : LStream V) :
+    (s.mapChunks f).err = s.err ∧ (s.mapChunks f).chunks = f s.chunks := ⟨rfl, rfl⟩
+
+/-- **broken_producer_reported.** A natively streaming producer that returns its reader and
+    breaks after `k` chunks, merged with any other streams at a fan-in and converted on the way,
+    fails whatever drains the merged stream: the consumer node in stream mode, and the caller of
+    Stream / Collect / Transform when the fan-in is END — as Invoke fails when the producer runs. -/
+theorem broken_producer_reported {V} (co : ChunkOps V) (t : List V → Except Err (List V)) (k : Nat) (e : Err)
+    (x o : LStream V) (ho : lazyMidFail t k e x = .ok o) (conv : List V → List V)
+    (ls : List (LStream V)) (hmem : o.mapChunks conv ∈ ls)
+    (t' : List V → Except Err (List V)) :
+    ∃ m e', lazyOps.merge ls = some m ∧ (∃ s ∈ ls, s.err = some e') ∧
+      lazyNode t' m = .error e' ∧ lazyConcat co m = .error e' := by
+  have hoe : o.err = some e := by
+    unfold lazyMidFail at ho
+    cases hx : x.force with
+    | error _ => simp [hx, bind, Except.bind] at ho
+    | ok xs =>
+      cases ht : t xs with
+      | error _ => simp [hx, ht, bind, Except.bind] at ho
+      | ok ys =>
+        simp [hx, ht, bind, Except.bind, pure, Except.pure] at ho
+        rw [← ho]
+  obtain ⟨m, hm, h1, h2, _⟩ := merge_keeps_error_items ls
+  obtain ⟨e', he'⟩ := h1 _ hmem e hoe
+  refine ⟨m, e', hm, h2 e' he', ?_, ?_⟩
+  · exact (error_item_reported co m e' he' t' 0 e (fun _ => .ok [])).1
+  · exact (error_item_reported co m e' he' t' 0 e (fun _ => .ok [])).2.2.2
+
+/-- **lazy_node_ok / lazy_branch_ok.** A draining node and a draining branch condition over
+    lazy streams correspond (hypotheses of `engine_hom`) to the same node and condition over
+    chunk lists, for `h` = the chunks of a stream and `P` = "no error item". -/
+theorem lazy_node_ok {V} (tb : Branch (LStream V) → Branch (List V)) (key : Key) (writeTo controls : List Key)
+    (brs : List (Branch (LStream V))) (t : List V → Except Err (List V)) :
+    NodeOK LStream.chunks (fun s : LStream V => s.err = none) tb
+      { key := key, act := lazyNode t, writeTo := writeTo, controls := controls, branches := brs }
+      { key := key, act := t, writeTo := writeTo, controls := controls, branches := brs.map tb } where
+  key := rfl
+  writeTo := rfl
+  controls := rfl
+  branches := rfl
+  act := by
+    intro a ha
+    simp only [lazyNode, LStream.force_ok a ha]
+    cases ht : t a.chunks <;> simp [ht, bind, Except.bind, pure, Except.pure, Except.map, LStream.ofList]
+  keeps := by
+    intro a a' ha h
+    simp only [lazyNode, LStream.force_ok a ha] at h
+    cases ht : t a.chunks with
+    | error _ => simp [ht, bind, Except.bind] at h
+    | ok ys =>
+      simp [ht, bind, Except.bind, pure, Except.pure] at h
+      rw [← h]; rfl
+
+theorem lazy_branch_ok {V} (ends : List Key) (noData : Bool) (c : List V → Except Err (List Key)) :
+    BranchOK LStream.chunks (fun s : LStream V => s.err = none)
+      ({ ends := ends, noData := noData, cond := lazyCond c } : Branch (LStream V))
+      ({ ends := ends, noData := noData, cond := c } : Branch (List V)) := by
+  refine ⟨rfl, rfl, ?_⟩
+  intro a ha
+  simp only [lazyCond, LStream.force_ok a ha]
+  rfl
+
+/-- **lazy_streams_conservative.** Without error items the refined stream mode is the chunk-list
+    stream mode: for every runner over lazy streams whose nodes and branch conditions correspond
+    to chunk-list ones (as draining nodes and conditions do: `lazy_node_ok`, `lazy_branch_ok`;
+    pass-through and nested graphs likewise), every error-item-free input and the in-order
+    schedule, the lazy run maps to the chunk-list run — result, error and per-step trace. So
+    whatever `engine_hom` gives for chunk lists against value mode (the agreement of Stream /
+    Collect / Transform with Invoke) carries over to lazy streams as long as no producer breaks. -/
+theorem lazy_streams_conservative {V} (tb : Branch (LStream V) → Branch (List V)) (tn : Node (LStream V) → Node (List V))
+    (htb : ∀ b, BranchOK LStream.chunks (fun s : LStream V => s.err = none) b (tb b))
+    (htn : ∀ n, NodeOK LStream.chunks (fun s : LStream V => s.err = none) tb n (tn n))
+    (r : Runner (LStream V)) (x : LStream V) (hx : x.err = none) :
+    runS listOps (r.mapNodes tn) Sched.id x.chunks = (runS lazyOps r Sched.id x).mapO LStream.chunks :=
+  engine_hom LStream.chunks (fun s => s.err = none) tb tn htb htn lazyOps listOps lazy_ops_ok r (fun _ => rfl)
+    Sched.id Sched.id (sched_id_hom LStream.chunks).1 (sched_id_hom (B := List V) LStream.chunks).2 x hx
+
 /-! non-vacuity: a chunker that really splits, on a concrete value type -/
 example : concat ({ concatItems := fun l => .ok l.sum, emptyErr := { cls := .noTasks } } : ChunkOps Nat) [1, 2] = .ok 3 := rfl
+
+/-! non-vacuity: a producer that breaks after one chunk, merged with a healthy stream, fails the
+    caller's concatenation although chunks were delivered -/
+example : (lazyMidFail (V := Nat) (fun xs => .ok xs) 1 { cls := .user 7 } (.ofList [1, 2])).toOption.bind
+      (fun o => (lazyOps.merge [LStream.ofList [5], o]).map
+        (lazyConcat { concatItems := fun l => .ok l.sum, emptyErr := { cls := .noTasks } }))
+    = some (.error { cls := .user 7 }) := rfl
 
 end EinoV.C04
